@@ -1,4 +1,5 @@
 #!/bin/sh
+[ -d /tmp/wt/ST ] || { mkdir -p /tmp/wt && git -C /repo worktree add -q --detach /tmp/wt/ST HEAD; }
 # usage: eval_variant.sh <seeded-dir-name> <check ids...> : applies the seeded patch to the scratch worktree /tmp/wt/ST (synced to /repo HEAD), runs the checks there, reverts
 D=/verif/seeded/$1; shift
 cd /tmp/wt/ST && git checkout -q -- . && git reset -q --hard $(git -C /repo rev-parse HEAD) && git apply $D/patch.diff || { echo "patch does not apply"; exit 2; }
